@@ -188,9 +188,59 @@ def validity_relations(ctx):
     return fn, out
 
 
+NP_OPS = {'not_equal': '!=', 'equal': '=', 'less_equal': '<=', 'less': '<', 'greater_equal': '>=', 'greater': '>'}
+
+
+def _columnwise_relation(fn, body):
+    """Vectorised form: a loop over column pairs (i, j) combining `compare(idx[:, i], idx[:, j])` (directly or
+    through a nested helper taking the two column indices and the comparison function) into the valid mask.
+    Returns (relation, pairs, skips_inactive) or None.  pairs: 'all' (itertools.combinations(.., 2)) or
+    'adjacent' ((i, i+1) over range(n-1))."""
+    for s in body:
+        if not isinstance(s, ast.For):
+            continue
+        it = norm(s.iter)
+        if 'combinations(' in it and it.rstrip(')').endswith(', 2'):
+            pairs = 'all'
+        elif it.startswith('range(') and any(isinstance(b, ast.BinOp) and isinstance(b.op, ast.Add) and
+                                              isinstance(b.right, ast.Constant) and b.right.value == 1
+                                              for st in s.body for b in ast.walk(st)):
+            pairs = 'adjacent'
+        else:
+            continue
+        rel, skip = None, False
+        for st in s.body:
+            for sub in ast.walk(st):
+                if isinstance(sub, ast.Compare) and len(sub.ops) == 1 and '[:, ' in norm(sub.left) and \
+                        '[:, ' in norm(sub.comparators[0]):
+                    rel = {ast.NotEq: '!=', ast.Eq: '=', ast.LtE: '<=', ast.Lt: '<', ast.GtE: '>=',
+                           ast.Gt: '>'}.get(type(sub.ops[0]), '?')
+                if isinstance(sub, ast.Compare) and len(sub.ops) == 1 and isinstance(sub.ops[0], ast.Eq) and \
+                        norm(sub.comparators[0]) == '-1':
+                    skip = True
+                if isinstance(sub, ast.Call) and isinstance(sub.func, ast.Name) and sub.func.id in fn.nested:
+                    helper = fn.nested[sub.func.id]
+                    htxt = ' '.join(norm(x) for x in helper.body)
+                    for a in sub.args:
+                        nm = norm(a).split('.')[-1]
+                        if nm in NP_OPS:
+                            rel = NP_OPS[nm]
+                    if 'inactive' in htxt or '== -1' in htxt:
+                        skip = True
+        if rel is not None:
+            return rel, pairs, skip
+    return None
+
+
 def _checker_relation(fn, body):
     if any(isinstance(s, ast.Raise) for s in body):
         return 'raise'
+    cw = _columnwise_relation(fn, body)
+    if cw is not None:
+        rel, pairs, skip = cw
+        if pairs == 'adjacent' and skip and rel != '=':
+            return f'{rel} on adjacent columns only, skipping inactive entries (not enforced across an inactive choice)'
+        return rel
     txt = ' '.join(norm(s) for s in body)
     # pairwise != over columns
     for s in body:
